@@ -220,7 +220,7 @@ func init() {
 		assumptions: []string{
 			"reference meaning of each construct is the harness' transcription of docs/5-definitions.md (R2); '.' and negation range over U+0001..U+007F; \\s = [ \\t\\n\\r\\f]",
 			"strings containing NUL are outside the comparison (the reader's sentinel; the property excludes it)",
-			"\\p{..} classes, '$' not at the end and '^' not at the start have no documented meaning and are not generated",
+			"the Unicode classes \\p{..} are marked TODO upstream (most tables are empty, Lu is A-Z): their membership is not judged; only that \\P{X} is the complement of \\p{X} in every form and order (metamorphic). '$' not at the end and '^' not at the start have no documented meaning and are not generated",
 		},
 		floorQuick: 2000, floorThorough: 20000,
 		run: runC02,
@@ -282,6 +282,67 @@ func runC02(c *ctx) {
 	}
 	for k := range exh {
 		c.exhaustive(k, true)
+	}
+	// \p{X} and \P{X}: whatever the tables hold, the two are complements of each other, in every order of compilation and
+	// in every position (bare, in a bracket group, in a negated bracket group). Decided on single characters.
+	if c.shard == 3%c.of {
+		cats := []string{"Math", "Emoji", "Latin", "Greek", "Cyrillic", "Han", "Persian", "Letter", "Lu", "Ll", "Lt", "Lm", "Lo", "L",
+			"Mark", "Mn", "Mc", "Me", "M", "Number", "Nd", "Nl", "No", "N", "Punctuation", "Pc", "Pd", "Ps", "Pe", "Pi", "Pf", "Po", "P",
+			"Separator", "Zs", "Zl", "Zp", "Z", "Symbol", "Sm", "Sc", "Sk", "So", "S"}
+		probes := []rune{'a', 'Z', 'm', '0', ' ', '_', '+', 0xE9, 0x3BB, 0x416, 0x4E2D, 0x8A9E, 0x627, 0x2211, 0x1F600, 0x1C5, 0x2160, 0xA0, 0x2028}
+		build := func(p string) *eDFA {
+			var e *eDFA
+			pv, _ := safely(func() {
+				if n, err := nfa.Parse(p); err == nil && n != nil {
+					e = fromAutoDFA(n.ToDFA())
+				}
+			})
+			if pv != nil {
+				return nil
+			}
+			return e
+		}
+		for i, x := range cats {
+			c.eval()
+			forms := [][2]string{{`\p{` + x + `}`, `\P{` + x + `}`}, {`[\p{` + x + `}]`, `[^\p{` + x + `}]`}, {`[^\P{` + x + `}]`, `[\P{` + x + `}]`}}
+			var pos, neg []*eDFA
+			for k, f := range forms {
+				first, second := f[0], f[1]
+				if (i+k)%2 == 1 {
+					first, second = second, first // compile the negated form first for half of them
+				}
+				a, b := build(first), build(second)
+				if (i+k)%2 == 1 {
+					a, b = b, a
+				}
+				pos, neg = append(pos, a), append(neg, b)
+			}
+			ok := true
+			for k := range forms {
+				if pos[k] == nil || neg[k] == nil {
+					c.inconclusive("unicode class pattern rejected (C09's business)")
+					ok = false
+				}
+			}
+			if !ok {
+				continue
+			}
+			c.nontrivial("unicode-class " + x)
+			c.count("unicode_class_complement_checks", 1)
+			for _, r := range probes {
+				in0 := pos[0].matches(string(r))
+				for k := range forms {
+					ip, in := pos[k].matches(string(r)), neg[k].matches(string(r))
+					// negation ranges over the 7-bit characters (assumption above): beyond them only disjointness is demanded
+					if (r < 0x80 && (ip == in || ip != in0)) || (ip && in) {
+						c.violate(violation{Case: "unicode-class-complement", Input: map[string]any{"class": x, "positive_form": forms[k][0], "negated_form": forms[k][1], "character": fmt.Sprintf("U+%04X", r)},
+							Observed: fmt.Sprintf("%s %s the character, %s %s it, \\p{%s} %s it", forms[k][0], accWord(ip), forms[k][1], accWord(in), x, accWord(in0)),
+							Expected: "a class and its negation accept complementary sets of (7-bit) characters and never the same character, the same in every form and in every order of compilation"})
+						break
+					}
+				}
+			}
+		}
 	}
 	// repetition counts that no int can hold: the pattern may be refused, but if it is accepted the automaton must not
 	// be that of some other count (a wrapped-around number). Decided on the strings a^k, k < 70, in a memory-capped child.
